@@ -2,6 +2,7 @@
 //! knows how to execute itself on the simulator and judge the resulting
 //! history.
 
+pub mod acctcase;
 pub mod c17plan;
 pub mod crashcase;
 pub mod hexcase;
@@ -19,6 +20,7 @@ pub enum AnyCase {
     Hex(hexcase::HexCase),
     New(newcase::NewCase),
     Crash(crashcase::CrashCase),
+    Acct(acctcase::AcctCase),
 }
 
 impl AnyCase {
@@ -27,6 +29,7 @@ impl AnyCase {
             AnyCase::Hex(c) => c.run(ctx, dir),
             AnyCase::New(c) => c.run(ctx, dir),
             AnyCase::Crash(c) => c.run(ctx, dir),
+            AnyCase::Acct(c) => c.run(ctx, dir),
         }
     }
 
@@ -34,7 +37,7 @@ impl AnyCase {
     /// schedule instead of a scheduler seed), if it is not explicit already.
     pub fn explicit(&self, report: &RunReport) -> Option<AnyCase> {
         match self {
-            AnyCase::Hex(_) | AnyCase::Crash(_) => None,
+            AnyCase::Hex(_) | AnyCase::Crash(_) | AnyCase::Acct(_) => None,
             AnyCase::New(c) => c.explicit(report).map(AnyCase::New),
         }
     }
@@ -45,6 +48,7 @@ impl AnyCase {
             AnyCase::Hex(c) => c.shrink_candidates().into_iter().map(AnyCase::Hex).collect(),
             AnyCase::New(c) => c.shrink_candidates().into_iter().map(AnyCase::New).collect(),
             AnyCase::Crash(c) => c.shrink_candidates().into_iter().map(AnyCase::Crash).collect(),
+            AnyCase::Acct(c) => c.shrink_candidates().into_iter().map(AnyCase::Acct).collect(),
         }
     }
 }
